@@ -18,6 +18,11 @@ Shape V (exhaustive value-domain sweeps) + S (end to end).
             (correctly rounded, "C" locale).  Every spelling is also parsed by a second
             object compiled from the same pstrtod.cxx with its process-locale dependent
             libc calls redirected to a ','-decimal implementation (harness/fpconv_comma.h).
+ histories  the answer of the process locale may CHANGE inside one process: every sequence of
+            length <= 3 over {'.', ','} of LC_NUMERIC decimal points is played in a fresh
+            process, all p=q=2 spellings parsed in every step -- once against the stateful
+            libc stand-ins, once with a REAL ','-locale (built with localedef into
+            .build/locales, switched with setlocale); oracle strtod_l("C").
  end to end headers with 2000 `void f_i(double x = LIT);` + `#define M_i LIT` for every LIT
             of the p=q=2 space and for 17/25-significant-digit spellings of a lattice of
             doubles -> interrogate (-python-native and -c) -> the literal as
@@ -30,7 +35,7 @@ import os
 import re
 import shutil
 
-from vf import build, lib_c18, tools
+from vf import build, harness, lib_c18, tools
 from vf.core import Check, HarnessError, pmap, run_main
 
 PID = "C18"
@@ -179,8 +184,15 @@ def nontrivial_lit(lit):
 def e2e_batch(args):
     """one header of literals through both back-ends; returns per literal the list of
     (where, printed text) and the checker's verdicts."""
-    b, d, lits, float_family = args
+    b, d, lits, float_family, real_locale = args
     os.makedirs(d, exist_ok=True)
+    tool_env = None
+    if real_locale:
+        # the tool runs with a real ','-decimal LC_NUMERIC in force (see harness/c18_setlocale.c)
+        tool_env = build.tool_env(b, {"LD_PRELOAD": REAL["so"], "LOCPATH": REAL["locpath"],
+                                      "LC_NUMERIC": "xx_XX",
+                                      "VERIF_SETLOC_LOG": os.path.join(d, "setloc.log")})
+        del tool_env["LC_ALL"]
     h = ["__begin_publish\n"]
     for i, lit in enumerate(lits):
         if float_family:
@@ -194,7 +206,15 @@ def e2e_batch(args):
     printed = [[] for _ in lits]          # (where, text)
     for be, flags in (("pyn", ["-python-native"]), ("c", ["-c", "-fnames"])):
         r = tools.interrogate(b, ["-od", be + ".in", "-oc", be + ".cxx", "-module", "m", "-library", "l"]
-                              + flags + ["h.h"], cwd=d, timeout=300)
+                              + flags + ["h.h"], cwd=d, timeout=300, env=tool_env)
+        if real_locale:
+            try:
+                seen = open(os.path.join(d, "setloc.log")).read().split()
+            except OSError:
+                seen = []
+            if not seen or seen[-1] != ",":
+                return {"error": "the ','-locale was not in force inside interrogate (setlocale seam "
+                                 "logged %r)" % seen}
         if r.rc != 0:
             return {"error": "interrogate %s failed on a header of floating literals: %s"
                              % (be, r.brief())}
@@ -280,14 +300,17 @@ def e2e_batch(args):
     return {"printed": printed, "bad": bad, "bits": bits}
 
 
-def e2e_single(ck, b, lit, float_family, tag):
+REAL = {}      # "so": setlocale preload seam, "locpath": directory holding the xx_XX locale
+
+
+def e2e_single(ck, b, lit, float_family, tag, real_locale=False):
     d = os.path.join(ck.scratch(), tag)
-    res = e2e_batch((b, d, [lit], float_family))
+    res = e2e_batch((b, d, [lit], float_family, real_locale))
     shutil.rmtree(d, ignore_errors=True)
     return res
 
 
-def run_e2e(ck, acc, b, family, lits, float_family):
+def run_e2e(ck, acc, b, family, lits, float_family, real_locale=False):
     batches = [lits[i:i + E2E_BATCH] for i in range(0, len(lits), E2E_BATCH)]
     done = 0
     for c0 in range(0, len(batches), 16):
@@ -295,10 +318,10 @@ def run_e2e(ck, acc, b, family, lits, float_family):
             ck.cap("deadline in %s after %d of %d literals" % (family, done, len(lits)))
             return False
         chunk = batches[c0:c0 + 16]
-        jobs = [(b, os.path.join(ck.scratch(), "%s-%d" % (family, c0 + j)), bl, float_family)
-                for j, bl in enumerate(chunk)]
+        jobs = [(b, os.path.join(ck.scratch(), "%s-%d" % (family, c0 + j)), bl, float_family,
+                 real_locale) for j, bl in enumerate(chunk)]
         results = pmap(e2e_batch, jobs)
-        for (bb, d, bl, ff), res in zip(jobs, results):
+        for (bb, d, bl, ff, rl), res in zip(jobs, results):
             if "error" in res:
                 raise HarnessError(res["error"])
             for i, lit in enumerate(bl):
@@ -322,17 +345,21 @@ def run_e2e(ck, acc, b, family, lits, float_family):
 
                     def confirm(lit=lit):
                         n[0] += 1
-                        r1 = e2e_single(ck, b, lit, float_family, "confirm-%s-%d" % (family, n[0]))
+                        r1 = e2e_single(ck, b, lit, float_family, "confirm-%s-%d" % (family, n[0]),
+                                        real_locale)
                         if "error" in r1:
                             raise HarnessError(r1["error"])
                         return bool(r1["bad"])
                     w = bad[0]
                     ck.fail("%s/%s" % (family, lit),
-                            "literal %s%s (bits %s) is printed as %r in %s (bits %s)%s"
+                            "literal %s%s (bits %s) is printed as %r in %s (bits %s)%s%s"
                             % (lit, "f" if float_family else "", w[2], w[1], w[0], w[3],
-                               "" if len(bad) == 1 else " and %d more places" % (len(bad) - 1)),
+                               "" if len(bad) == 1 else " and %d more places" % (len(bad) - 1),
+                               " [interrogate running under a real ','-decimal LC_NUMERIC]"
+                               if real_locale else ""),
                             {"observed": w[1], "kind": "e2e", "literal": lit,
-                             "float_family": float_family, "all": bad}, confirm=confirm)
+                             "float_family": float_family, "real_locale": real_locale,
+                             "all": bad}, confirm=confirm)
             if not ck.keep:
                 shutil.rmtree(d, ignore_errors=True)
             done += len(bl)
@@ -424,7 +451,69 @@ def explore(ck):
             report_parse(ck, acc, exe, res, fpenv)
             completed.append("parser p=q=%d%s (%s)" % (p, " with suffixes" if sfx else "", fpenv))
 
+    # ---- locale-switch histories: the locale's answer may CHANGE within one process
+    locpath = lib_c18.build_comma_locale()
+    if locpath is None:
+        ck.cap("localedef cannot build a ','-decimal locale here: real-locale passes skipped, "
+               "locale modelled by the libc seam only")
+    else:
+        REAL["locpath"] = locpath
+        REAL["so"] = harness.compile_so("c18_setlocale")
+    ck.extra["real_comma_locale"] = bool(locpath)
+    histories = [h for n in (1, 2, 3) for h in
+                 ("".join(t) for t in __import__("itertools").product(".,", repeat=n))]
+    for mode in ("seam", "real"):
+        fam = "hist-" + mode
+        if not want(fam) or (mode == "real" and locpath is None):
+            continue
+        for h in histories:
+            env = build.tool_env(None, {"FPCONV_FPENV": tool_env, "LOCPATH": locpath or ""})
+            r = tools.run([exe, "hist", mode, h, "2", "2", str(THREADS)], timeout=left(), env=env)
+            if r.timeout:
+                ck.cap("locale history %s/%s timed out" % (mode, h))
+                continue
+            if r.rc != 0 or not r.out.strip().startswith("{"):
+                raise HarnessError("fpconv hist %s %s failed: rc=%s %s" % (mode, h, r.rc, r.err[-400:]))
+            res = json.loads(r.out)
+            switches = sum(1 for i in range(1, len(h)) if h[i] != h[i - 1])
+            acc.bulk("%s/%s" % (fam, h), res["checked"], res["after_switch"],
+                     "%s switches=%d bad=%d" % (fam, switches, min(res["bad"], 1)),
+                     {"history": h, "meaning": "decimal point of the process locale in each step; every "
+                                              "p=q=2 spelling parsed in every step of one process; %s"
+                                              % ("stateful libc stand-ins" if mode == "seam" else
+                                                 "real setlocale(LC_NUMERIC, xx_XX|C)"),
+                      "bad_per_step": res["bad_per_step"]}, fam)
+            nrep = 0
+            for fb in res["first_bad"]:
+                if not acc.may_report(fam):
+                    break
+                nrep += 1
+                key = "%s/%s/step%d/%s" % (fam, h, fb["step"], fb["s"])
+
+                def confirm(s_=fb["s"], h_=h, mode_=mode, env_=env):
+                    rr = tools.run([exe, "one-hist", mode_, h_, s_], timeout=60, env=env_)
+                    if rr.rc != 0:
+                        raise HarnessError("fpconv one-hist failed: %s" % rr.err[-300:])
+                    return json.loads(rr.out)["bad"] > 0
+                ck.fail(key, "pstrtod(%r) = %s (consumed %d) in step %d of locale history %r (decimal "
+                             "point %r in force, %s); correctly rounded %s (consumed %d)"
+                        % (fb["s"], fb["got"], fb["got_end"], fb["step"], h, fb["state"],
+                           "libc seam" if mode == "seam" else "real locale", fb["exp"], fb["exp_end"]),
+                        {"observed": fb["got"], "kind": "hist", "mode": mode, "history": h,
+                         "s": fb["s"]}, confirm=confirm)
+            acc.suppressed += max(0, res["bad"] - nrep)
+        completed.append("locale-switch histories of length <= 3 over {'.', ','} x p=q=2 spellings (%s)"
+                         % ("stateful seam" if mode == "seam" else "real xx_XX locale"))
+
     # ---- end to end
+    if locpath is not None and want("e2e-long-locale"):
+        ll = long_literals(thorough)
+        if run_e2e(ck, acc, b, "e2e-long-locale", ll, False, real_locale=True):
+            completed.append("end to end long literals, interrogate under a real ','-locale (%d)" % len(ll))
+    if locpath is not None and thorough and want("e2e-locale"):
+        lits = list(literal_space(2, 2))
+        if run_e2e(ck, acc, b, "e2e-locale", lits, False, real_locale=True):
+            completed.append("end to end p=q=2, interrogate under a real ','-locale (%d)" % len(lits))
     if want("e2e"):
         lits = list(literal_space(2, 2))
         if run_e2e(ck, acc, b, "e2e", lits, False):
@@ -478,6 +567,9 @@ def explore(ck):
                      "redirecting strtod/strtof/strtold/atof/localeconv inside pstrtod.cxx to a "
                      "','-decimal implementation; functions taking an explicit locale are not "
                      "redirected",
+                     "a real ','-decimal locale xx_XX is built with localedef (hand-written ASCII "
+                     "charmap); interrogate is put under it by an LD_PRELOAD constructor calling "
+                     "setlocale(LC_NUMERIC, \"\") because the tools never call setlocale themselves",
                      "floating-point environment: sweeps run under the IEEE default and under "
                      "FTZ/DAZ (what crtfastmath.o sets in the -ffast-math linked tools)",
                      "doubles: structured lattice (+ every float32 value in the thorough tier), "
@@ -502,7 +594,16 @@ def replay(ck, b, exe):
         print(json.dumps(o, indent=1))
         ck.cleanup()
         return 0 if o["ok_" + d["variant"]] else 1
-    res = e2e_single(ck, b, d["literal"], d["float_family"], "replay")
+    if d["kind"] == "hist":
+        env = build.tool_env(None, {"LOCPATH": lib_c18.build_comma_locale() or ""})
+        r = tools.run([exe, "one-hist", d["mode"], d["history"], d["s"]], timeout=60, env=env)
+        print(r.out, r.err)
+        ck.cleanup()
+        return 1 if (r.rc != 0 or json.loads(r.out)["bad"] > 0) else 0
+    if d.get("real_locale"):
+        REAL["locpath"] = lib_c18.build_comma_locale()
+        REAL["so"] = harness.compile_so("c18_setlocale")
+    res = e2e_single(ck, b, d["literal"], d["float_family"], "replay", d.get("real_locale", False))
     print(json.dumps(res, indent=1))
     ck.cleanup()
     return 1 if res.get("bad") or "error" in res else 0
